@@ -4,7 +4,8 @@ import numpy as np
 import scipy.sparse as sps
 
 from harness.core import Prop
-from harness.props.c11 import (make_grid, grid_spec, embed_spec, BIG_SPECS, inv_term, canon, to_dense, pk, pts, dcoo,
+from harness.props.c11 import (make_grid, grid_spec, embed_spec, BIG_SPECS, BIG_QUICK, update_cells,
+                                run_update, inv_term, canon, to_dense, pk, pts, dcoo,
                                 zlist, zi)
 
 import porepy as pp
@@ -54,6 +55,16 @@ def geom(g):
         pad = lambda a: np.vstack([a, np.zeros((1, a.shape[1]))])
         return pad(cc), pad(fc), pad(fn)
     return arrs
+
+
+#: component-wise (roller) boundary conditions on rectangles: side -> Dirichlet components
+#: (the other component of that side carries the exact traction).  Every component has the
+#: same NUMBER of Dirichlet faces, on different faces.
+ROLLERS = [({"kind": "cart", "n": [3, 3]}, {"w": [0], "e": [1], "s": [0, 1], "n": [0, 1]}),
+           ({"kind": "tri", "n": [3, 3]}, {"w": [0], "s": [1], "e": [0, 1], "n": [0, 1]}),
+           ({"kind": "cart", "n": [4, 2]}, {"w": [0], "e": [1], "s": [0, 1], "n": [0, 1]}),
+           ({"kind": "cart", "n": [3, 3]}, {"w": [0], "s": [1], "e": [0, 1], "n": [0, 1]}),
+           ({"kind": "tri", "n": [2, 2]}, {"w": [1], "e": [0], "s": [0, 1], "n": [0, 1]})]
 
 
 class C13(Prop):
@@ -141,14 +152,24 @@ class C13(Prop):
     # ------------------------------------------------------------------ generation
     def generate(self, rng, n, tier):
         # larger oracle-only cases (see harness/props/c11.py BIG_SPECS)
-        big = BIG_SPECS[:2] if tier == "quick" else BIG_SPECS
-        nbig = min(len(big), max(0, n - 1)) if n >= 4 else 0
+        big = [b for b in (BIG_SPECS[:BIG_QUICK] if tier == "quick" else BIG_SPECS)
+               if not b[3].get("c11_only")]
+        # component-wise (roller) boundary conditions, oracle only
+        rollers = ROLLERS[:2] if tier == "quick" else ROLLERS
+        nbig = min(len(big), max(0, n - 1)) if n >= 6 else 0
+        nrol = min(len(rollers), max(0, n - nbig - 1)) if n >= 10 else 0
         for it in range(n):
             nsub_big = None
+            extra = {}
+            roller = None
             while True:
                 if it >= n - nbig:
-                    spec, dim, nsub_big = big[it - (n - nbig)]
+                    spec, dim, nsub_big, extra = big[it - (n - nbig)]
                     spec = dict(spec)
+                    break
+                if it >= n - nbig - nrol:
+                    spec, roller = rollers[it - (n - nbig - nrol)]
+                    spec, dim = dict(spec), 2
                     break
                 spec, dim = grid_spec(rng, tier)
                 if dim == 3 and tier != "quick":
@@ -164,7 +185,7 @@ class C13(Prop):
                 spec["pert"] = [[rng.randint(-amp, amp) for _ in range(dim)]
                                 for _ in range(g.num_nodes)]
                 g = make_grid(spec)
-            if rng.random() < 0.4:
+            if rng.random() < 0.4 and roller is None:
                 # rigid motion / power-of-two scaling; the topology does not change
                 spec["embed"] = embed_spec(rng)
             bfaces = [int(f) for f in g.get_all_boundary_faces()]
@@ -179,7 +200,25 @@ class C13(Prop):
                     neu = [f for f in bfaces if rng.random() < pn]
             else:
                 neu = admissible_neumann_3d(g, rng, rng.choice([0.3, 0.6, 1.0]))
+            if extra.get("bc") == "mixed":
+                if dim == 2:
+                    sh = list(bfaces)
+                    rng.shuffle(sh)
+                    neu = sorted(sh[:max(1, rng.randint(len(sh) // 3, 2 * len(sh) // 3))])
+                else:
+                    neu = admissible_neumann_3d(g, rng, 1.0)
             dirf = [f for f in bfaces if f not in set(neu)]
+            dirc = None
+            if roller is not None:
+                # sides of the (unperturbed) rectangle; per side the Dirichlet components
+                g0 = make_grid({k: v for k, v in spec.items() if k not in ("pert", "embed")})
+                fc0 = g0.face_centers
+                side = {"w": fc0[0] < 1e-9, "e": fc0[0] > fc0[0].max() - 1e-9,
+                        "s": fc0[1] < 1e-9, "n": fc0[1] > fc0[1].max() - 1e-9}
+                dirc = [sorted(int(f) for f in bfaces if any(side[sd_][f] and i in comps
+                                                             for sd_, comps in roller.items()))
+                        for i in range(2)]
+                dirf = sorted(set(dirc[0]) & set(dirc[1]))
             fields = []
             for k in range(3):
                 A = [[rng.randint(-3, 3) for _ in range(3)] for _ in range(3)]
@@ -200,9 +239,21 @@ class C13(Prop):
             nsub = rng.choice([None, None, 2, 3]) if g.num_cells >= 2 else None
             case = {"grid": spec, "dim": dim, "mu": sc * rng.choice([0.5, 1.0, 1.5, 2.0, 3.0]),
                     "la": sc * rng.choice([0.0, 0.5, 1.0, 2.0, 4.0]), "dir": dirf, "fields": fields,
-                    "nsub": nsub, "inv": rng.random() < 0.3, "local": rng.random() < 0.34}
+                    "nsub": nsub, "inv": rng.random() < 0.3, "local": rng.random() < 0.34,
+                    # documented optional parameters: continuity point and local inverter
+                    "eta": rng.choice([None, None, 0.0, 1.0 / 3, 0.25, 0.5]),
+                    "inverter": rng.choice([None, None, "python", "numba"]),
+                    "update": None, "dirc": None}
+            if rng.random() < 0.25:
+                # two-step history: full discretization, then partial re-discretization
+                case["update"] = {"route": rng.choice(["flag", "method"]),
+                                  "cells": update_cells(rng, g, "random")}
             if nsub_big is not None:
-                case.update(nsub=nsub_big or None, inv=False, local=False, oracle_only=True)
+                case.update(nsub=nsub_big or None, inv=False, local=False, oracle_only=True, update=None)
+                if extra.get("update"):
+                    case["update"] = {"route": extra["update"], "cells": update_cells(rng, g, "middle")}
+            if dirc is not None:
+                case.update(dirc=dirc, inv=False, local=False, oracle_only=True, nsub=None)
             yield case
 
     # ------------------------------------------------------------------ implementation
@@ -215,6 +266,13 @@ class C13(Prop):
         g = make_grid(case["grid"])
         dirf = np.array(case["dir"], dtype=int)
         bc = pp.BoundaryConditionVectorial(g, dirf, ["dir"] * dirf.size)
+        if case.get("dirc"):
+            for i, faces in enumerate(case["dirc"]):
+                bc.is_dir[i, :] = False
+                bc.is_dir[i, np.array(faces, dtype=int)] = True
+                bc.is_neu[i, :] = False
+                bc.is_neu[i, g.get_all_boundary_faces()] = True
+                bc.is_neu[i, bc.is_dir[i]] = False
         out = (g, bc)
         C13._cache = (key, out)
         return out
@@ -226,6 +284,10 @@ class C13(Prop):
         par = {"fourth_order_tensor": C, "bc": bc}
         if case.get("nsub"):
             par["partition_arguments"] = {"num_subproblems": int(case["nsub"])}
+        if case.get("eta") is not None:
+            par["mpsa_eta"] = float(case["eta"])
+        if case.get("inverter"):
+            par["inverter"] = case["inverter"]
         data = pp.initialize_data(g, {}, KW, par)
         discr = pp.Mpsa(KW)
         # capture the block-diagonal local systems handed to the inverter (monkey-patch, no
@@ -270,6 +332,8 @@ class C13(Prop):
             pp.Mpsa._tensor_vector_prod = w_tv
         try:
             discr.discretize(g, data)
+            if case.get("update"):
+                run_update(discr, g, data, KW, case["update"])
         except ValueError as e:
             if "inversion of local linear systems" not in str(e):
                 raise
@@ -301,8 +365,14 @@ class C13(Prop):
         for f in bfaces:
             s = int(cf[f].data[0])
             kinds[f] = s * (1 if f in dirset else 2)
-        non_neu_rows = [f * nd + i for f in range(g.num_faces) if abs(kinds[f]) != 2 for i in range(nd)]
-        dir_rows = [f * nd + i for f in range(g.num_faces) if abs(kinds[f]) == 1 for i in range(nd)]
+        # per component (roller conditions): sign * (1 Dirichlet | 2 Neumann), 0 interior
+        ckinds = [[0] * g.num_faces for _ in range(nd)]
+        for f in bfaces:
+            s = int(cf[f].data[0])
+            for i in range(nd):
+                ckinds[i][f] = s * (1 if bc.is_dir[i, f] else 2)
+        non_neu_rows = [f * nd + i for f in range(g.num_faces) for i in range(nd) if abs(ckinds[i][f]) != 2]
+        dir_rows = [f * nd + i for f in range(g.num_faces) for i in range(nd) if abs(ckinds[i][f]) == 1]
         neu = [f for f in bfaces if abs(kinds[f]) == 2]
         local = None
         if loc.get("n_ds") == 1 and {"A", "rc", "rb", "sd"} <= set(loc):
@@ -326,7 +396,7 @@ class C13(Prop):
             A, B = sps.csr_matrix(A), sps.csr_matrix(B)
             if A.shape == B.shape and A.nnz + B.nnz <= 1200:
                 inv = {"n": int(A.shape[0]), "A": canon(A), "B": canon(B)}
-        return {"dim": int(nd), "nf": int(g.num_faces), "nc": int(nc), "kinds": kinds, "inv": inv, "local": local,
+        return {"dim": int(nd), "nf": int(g.num_faces), "nc": int(nc), "kinds": kinds, "ckinds": ckinds, "inv": inv, "local": local,
                 "neu_share_edge": bool(nd == 3 and shares_edge_3d(g, neu)),
                 "max_cond": max_cond, "singular": bool(max_cond > SINGULAR),
                 "stress": canon(md[discr.stress_matrix_key], non_neu_rows),
@@ -347,9 +417,10 @@ class C13(Prop):
         DC = to_dense(res["bdc"], (nf * nd, nc * nd))
         DF = to_dense(res["bdf"], (nf * nd, nf * nd))
         kinds = np.array(res["kinds"])
-        isdir = np.abs(kinds) == 1
-        isneu = np.abs(kinds) == 2
-        sgn = np.sign(kinds).astype(float)
+        ck = np.array(res["ckinds"])              # (nd, nf), per component
+        isdir = np.abs(ck) == 1
+        isneu = np.abs(ck) == 2
+        sgn = np.sign(ck).astype(float)
         mu, la = case["mu"], case["la"]
         cc, fcs, fns = geom(g)
         aS, aBS, aDC, aDF = (np.abs(M).sum(axis=1) for M in (S, BS, DC, DF))
@@ -361,15 +432,16 @@ class C13(Prop):
             sig = mu * (A + A.T) + la * np.trace(A) * np.eye(nd)
             T = sig @ fns[:nd]
             bv = np.zeros((nd, nf))
-            bv[:, isdir] = uf[:, isdir]
-            bv[:, isneu] = sgn[isneu] * T[:, isneu]
+            bv[isdir] = uf[isdir]
+            bv[isneu] = sgn[isneu] * T[isneu]
             Th = (S @ uc.ravel("F") + BS @ bv.ravel("F")).reshape((nd, nf), order="F")
             # purely relative norm-wise tolerance, row by row (scale robust): 1e-8 of
             # (1-norm of the matrix rows) * (max-norm of the data) + |exact|
             umax, bmax = np.abs(uc).max(), np.abs(bv).max()
             magT = (aS * umax + aBS * bmax).reshape((nd, nf), order="F") + np.abs(T)
-            excT = (np.abs(Th - T) - 1e-8 * magT).max(axis=0)
-            excT[isneu] = -1.0
+            excT = np.abs(Th - T) - 1e-8 * magT
+            excT[isneu] = -1.0                    # nothing is claimed on Neumann components
+            excT = excT.max(axis=0)
             if excT.max() > 0:
                 f = int(np.argmax(excT))
                 kind = "translation" if not A.any() else ("rotation" if not (A + A.T).any() else "linear field")
@@ -377,8 +449,9 @@ class C13(Prop):
                         f"is {Th[:, f].tolist()}, exact sigma n = {T[:, f].tolist()}")
             Uh = (DC @ uc.ravel("F") + DF @ bv.ravel("F")).reshape((nd, nf), order="F")
             magU = (aDC * umax + aDF * bmax).reshape((nd, nf), order="F") + np.abs(uf)
-            excU = (np.abs(Uh - uf) - 1e-8 * magU).max(axis=0)
+            excU = np.abs(Uh - uf) - 1e-8 * magU
             excU[~isdir] = -1.0
+            excU = excU.max(axis=0)
             if excU.max() > 0:
                 f = int(np.argmax(excU))
                 return (f"linear field A={A.tolist()} b={b.tolist()}: reconstructed displacement on "
